@@ -69,7 +69,27 @@ gen_alias Gen.clockSpeedAsTicksPerSecond => asTicksPerSecond
 /-- mirrors: clock_speed.rs::ClockSpeed::as_ticks_per_minute — generated (GenFn.lean) -/
 def asTicksPerMinute (s : ClockSpeed α) : α := gen_body% Gen.clockSpeedAsTicksPerMinute s
 gen_alias Gen.clockSpeedAsTicksPerMinute => asTicksPerMinute
-/-- mirrors: clock_speed.rs `impl Tweenable for ClockSpeed` — generated (GenFn.lean) -/
+/-- the number a speed holds, in its own unit -/
+def raw : ClockSpeed α → α
+  | secondsPerTick v => v
+  | ticksPerSecond v => v
+  | ticksPerMinute v => v
+/-- the interpolation in the unit of the target speed (all of `impl Tweenable for ClockSpeed` until the repair
+    724c1bb; over ℝ it still is: `C05_speed_interpolation`) — hand-written, the reference the repaired
+    function is compared with -/
+def lerpInTargetUnit (a b : ClockSpeed α) (t : α) : ClockSpeed α :=
+  match b with
+  | secondsPerTick bv => secondsPerTick (lerp64 a.asSecondsPerTick bv t)
+  | ticksPerSecond bv => ticksPerSecond (lerp64 a.asTicksPerSecond bv t)
+  | ticksPerMinute bv => ticksPerMinute (lerp64 a.asTicksPerMinute bv t)
+/-- mirrors: clock_speed.rs::ClockSpeed::interpolate_in_unit_of_start (the interpolation in the unit of the
+    STARTING speed; the starting speed itself when that is NaN) — generated (GenFn.lean) -/
+def lerpInUnitOfStart (a b : ClockSpeed α) (t : α) : ClockSpeed α :=
+  gen_body% Gen.clockSpeedInterpolateInUnitOfStart a b t
+gen_alias Gen.clockSpeedInterpolateInUnitOfStart => lerpInUnitOfStart
+/-- mirrors: clock_speed.rs `impl Tweenable for ClockSpeed`: in the unit of the target speed; when that value
+    is not finite (the starting speed is infinite in the target's unit — 0 ticks per second is infinitely many
+    seconds per tick —, `inf + (b − inf)·t` is NaN) `interpolate_in_unit_of_start` — generated (GenFn.lean) -/
 def lerp (a b : ClockSpeed α) (t : α) : ClockSpeed α := gen_body% Gen.clockSpeedInterpolate a b t
 gen_alias Gen.clockSpeedInterpolate => lerp
 end ClockSpeed
